@@ -154,6 +154,7 @@ CLAIMS["C20"] = dict(level="proof", suites=["A"], design="5/C20",
    note=COMMON_NOTE + "PARTIAL: libm (log, exp), random.gauss and random.choices are oracles; a side decision with |expected/market - 1| < 1e-9 is counted inconclusive-float, never a violation. "
         "Normal-margin mode is outside the stated property. Real-number theorems depend on the standard library's real axioms.")
 CLAIMS["C06"]["suites"] = ["M", "S"]
+CLAIMS["C10"]["suites"] = ["S", "M"]
 CLAIMS["C04"]["suites"] = ["M", "S"]
 
 def c17_setup_checks(seed, tier, cov):
